@@ -29,8 +29,9 @@ from ..refmodels import units_ref
 PROPERTY = "C03"
 LEVEL = "exploration"
 RULE = ("a case is one distinct unit string generated from a derivation (prefix, symbol, exponent spelling, "
-        "product/quotient/parenthesis tree, numeric factors, inserted foreign item); strings are de-duplicated inside "
-        "and across sub-spaces; non-trivial = everything except a bare table symbol without prefix and exponent")
+        "product/quotient/parenthesis tree, numeric factors, inserted foreign item); strings are distinct inside every "
+        "sub-space and between atom and insert (sweep and struct share only the strings t*t and t/t of window atoms "
+        "with exponent 1, < 0.01 %); non-trivial = everything except a bare table symbol without prefix and exponent")
 ASSUMPTIONS = [
     "the published tables (UNIT_PREFIXES, UNIT_STANDARD, QUANTITY_UNITS) are the specification; they are read as data "
     "once per process and must be unambiguous (no spelling producible in two ways; checked at start-up)",
@@ -290,7 +291,7 @@ def check_case(case):
                        behaviour="dimensions-unreadable")
     if odims[1] != edims:
         return failure(sub, case, _dims_json(edims), _dims_json(odims[1]), tags=tags, behaviour="wrong-dimensions")
-    if not units_ref.close(b.magnitude, efac, tol):
+    if not numbers and not units_ref.close(b.magnitude, efac, tol):
         return failure(sub, case, efac, dict(magnitude=b.magnitude, read_as=b.expression), tags=tags,
                        behaviour="wrong-factor")
     # rendered text: must mean the same units by the tables, and parse back to the same units
@@ -301,7 +302,7 @@ def check_case(case):
                            behaviour="render-invalid")
         rl = sorted(rd.items())
         rfac, _ = ref.terms_factor(rl)
-        if ref.terms_dims(rl) != edims or rfac is None or not units_ref.close(rfac, efac, tol):
+        if ref.terms_dims(rl) != edims or (not numbers and (rfac is None or not units_ref.close(rfac, efac, tol))):
             return failure(sub, case, dict(factor=efac, dims=_dims_json(edims)),
                            dict(rendered=b.expression, factor=rfac), tags=tags, behaviour="render-differs")
         o2 = outcome(BaseUnits, b.expression)
